@@ -111,6 +111,9 @@ def run(ctx, rep):
     for m in G.get('matches', []):
         if is_rule_name(m.get('scrut')):
             known |= {x for a in m['arms'] for x in special._lits(a.get('variants', []))}
+        elif is_rule_option(m.get('scrut')):
+            # `match case.as_deref() { Some("snake_case") => …` — the literal sits inside the Option pattern
+            known |= {lit for a in m['arms'] for _n, lit in special._pat_alts(a.get('pat', '')) if lit is not None}
     for x in (y for L in ('calls', 'lets', 'returns') for it in G.get(L, []) for y in vt.walk(it if L != 'calls' else dict(it, k='call'))):
         if x.get('k') == 'call' and x.get('f') in ('find', 'contains', 'any', 'position') and x.get('recv') is not None:
             keys = special._table_keys(special._const_items(x['recv']))
